@@ -196,7 +196,16 @@ impl<'a> IrEmitter<'a> {
         // Regular method call
         let m = format_ident!("{}", Self::escape_keyword(method));
         // Temporary targeted support: `app.run(port=8080)` should map to `app.run("127.0.0.1", 8080)`.
+        // Never for a method of a type declared in this program: `run(port=…)` is then the user's own method.
+        let user_receiver = match &receiver.ty {
+            IrType::Struct(n) => self.struct_field_names.contains_key(n),
+            IrType::Ref(inner) | IrType::RefMut(inner) => {
+                matches!(inner.as_ref(), IrType::Struct(n) if self.struct_field_names.contains_key(n))
+            }
+            _ => false,
+        };
         if method == web_surface::APP_RUN_METHOD
+            && !user_receiver
             && args
                 .iter()
                 .any(|a| a.name.as_deref() == Some(web_surface::APP_RUN_ARG_PORT))
